@@ -694,6 +694,6 @@ pub fn run(ctx: &Ctx) -> i32 {
         w.stats.into_inner()
     });
     stats.merge(hstats);
-    let rule = "cases = per port 1-B every history of depth 4 over {write DDR, write DR, external pins} x {00,FF,0F,F0,55,AA} and of depth 6 over {00,FF,A5} (ports 1,5,B in quick; all in thorough), plus proptest-generated histories up to 200 ops over all 256 values on single ports and pairs of ports, with DR writes through Bus::write and through real MOV.B/BSET/BCLR instructions, pin changes through Bus::write_port and through the `ioport:` control-line handler, and a moving time base. Oracle = the statement's model (latch, direction, pins): after every step DR of all 11 ports reads (L&D)|(P&~D); a change of L&D must be announced by an ioport message of that port, the last announced value equals the driven output, stamps equal the time base and never decrease. Non-trivial = a DR bit written while input and later switched to output, or pins changing while some bits are outputs; distinct by the op sequence.";
+    let rule = "cases = the empty history on a fresh Cpu and after init_registers (DR of all 11 ports against the emulator's own initial latch / direction / pins); per port 1-B every history of depth 4 over {write DDR, write DR, external pins} x {00,FF,0F,F0,55,AA} and of depth 6 over {00,FF,A5} (ports 1,5,B in quick; all in thorough), plus proptest-generated histories up to 200 ops over all 256 values on single ports and pairs of ports, with DR writes through Bus::write and through real MOV.B/BSET/BCLR instructions, pin changes through Bus::write_port and through the `ioport:` control-line handler, and a moving time base. Oracle = the statement's model (latch, direction, pins): after every step DR of all 11 ports reads (L&D)|(P&~D); a change of L&D must be announced by an ioport message of that port, the last announced value equals the driven output, stamps equal the time base and never decrease. Non-trivial = a DR bit written while input and later switched to output, or pins changing while some bits are outputs; distinct by the op sequence.";
     finish(ctx, P, stats, rule, vec!["extra messages that repeat the current output value are allowed (the statement does not forbid them)".into()], Map::new())
 }
